@@ -29,10 +29,16 @@ RULE = ("(d) allocation layer: makeFreeSectors / freeSectors / addStream (throug
         "several sectors); 1 / 2 / 5 free mini sectors below the end of the mini stream x additions that fit, fit exactly, need more; a "
         "sub-storage holding streams named like the signature streams; names of 31 / 32 units; sessions without a change; an existing "
         "DIFAT sector; FAT without a free entry with the directory sector exactly full or not; DIFAT growth (109 full FAT sectors, "
-        "7 MiB); the repository's fixtures; malformed inputs (truncations at 9 offsets, trailing bytes, header fields, dangling / "
+        "7 MiB); one, two and three DIFAT sectors on files with 128-byte sectors (sector shift 7, which lib/comdoc accepts and whose writer "
+        "code is the same: 139..203 FAT sectors, 0.5-0.8 MiB; thorough: up to 265 FAT sectors = 5 DIFAT sectors; with 512-byte sectors two "
+        "DIFAT sectors need 15.5 MiB, beyond what the native model driver holds); "
+        "the repository's fixtures; malformed inputs (truncations at 9 offsets, trailing bytes, header fields, dangling / "
         "negative links, name length fields) for the refusal / panic behaviour of openFile. On every session input and every predicted "
         "output the driver also evaluates Spec.Cfb.validate and the executable invariant invB of the byte-level theorems (tag br): a "
-        "valid input must satisfy invB, a session on a valid input must leave a valid file.")
+        "valid input must satisfy invB, a session on a valid input must leave a valid file. Every file lib/comdoc wrote in a wb op is also "
+        "read by an INDEPENDENT compound-file reader (cfb_view: header counts, DIFAT chain and its used-prefix, FAT/DIFAT marks, directory "
+        "tree, mini stream; any sector shift): tables must agree with the file and every stream the history did not name must hold its "
+        "input bytes, whatever the model predicted.")
 
 
 def ints(s):
@@ -356,6 +362,161 @@ def status_class(s):
     return s
 
 
+import struct as _struct
+
+
+def cfb_view(b):
+    """INDEPENDENT reader of a compound file (header, DIFAT chain, FAT, directory tree, mini stream), generic in the sector shift,
+    not relic's and not the Lean model's.  Returns (None, why) when the tables do not agree with the file / header counts, else
+    ({path: bytes of every stream}, "")."""
+    import struct
+    if len(b) < 512 or b[:8] != bytes.fromhex("d0cf11e0a1b11ae1") or b[28:30] != b"\xfe\xff":
+        return None, "header"
+    shift, mshift = struct.unpack("<HH", b[30:34])
+    if not (5 <= shift <= 28) or mshift >= shift:
+        return None, "shifts"
+    ss, mss, spb = 1 << shift, 1 << mshift, (1 << shift) // 4
+    first = max(512, ss)
+    nsec = (len(b) - first) // ss
+    if (len(b) - first) % ss:
+        return None, "file does not end at a sector boundary"
+    ndirsec, nfat, dirstart, _, cutoff, mfstart, nmf, difstart, ndif = struct.unpack("<IIIIIIIII", b[40:76])
+    sec = lambda s_: b[first + s_ * ss:first + (s_ + 1) * ss]
+    ents = list(struct.unpack("<109I", b[76:512]))
+    nxt, difs = difstart, []
+    for _ in range(ndif):
+        if nxt >= nsec or nxt in difs:
+            return None, "DIFAT chain leaves the file or loops at sector %d" % nxt
+        difs.append(nxt)
+        v = struct.unpack("<%dI" % spb, sec(nxt))
+        ents += v[:-1]
+        nxt = v[-1]
+    if nxt != 0xFFFFFFFE:
+        return None, "DIFAT chain does not end after the %d sectors the header announces (next = %#x)" % (ndif, nxt)
+    used = [e for e in ents if e != 0xFFFFFFFF]
+    if ents[:len(used)] != used:
+        k = next(i for i, e in enumerate(ents) if e == 0xFFFFFFFF)
+        return None, "DIFAT entry %d is used after the free entry %d" % (next(i for i in range(k, len(ents)) if ents[i] != 0xFFFFFFFF), k)
+    if len(used) != nfat:
+        return None, "DIFAT lists %d FAT sectors, the header says %d" % (len(used), nfat)
+    if len(set(used)) != len(used) or any(e >= nsec for e in used):
+        return None, "DIFAT lists a FAT sector twice or beyond the file"
+    fat = []
+    for e in used:
+        fat += struct.unpack("<%dI" % spb, sec(e))
+    if nsec > len(fat):
+        return None, "the file has %d sectors, the FAT describes %d" % (nsec, len(fat))
+    if sorted(i for i, v in enumerate(fat) if v == 0xFFFFFFFD) != sorted(used):
+        return None, "FATSECT marks and the FAT sectors listed in the DIFAT differ"
+    if sorted(i for i, v in enumerate(fat) if v == 0xFFFFFFFC) != sorted(difs):
+        return None, "DIFSECT marks and the DIFAT chain differ"
+
+    def chain(start, table, limit):
+        out, seen = [], set()
+        while start != 0xFFFFFFFE:
+            if start >= limit or start in seen or start >= len(table):
+                return None
+            seen.add(start)
+            out.append(start)
+            start = table[start]
+        return out
+    dch = chain(dirstart, fat, nsec)
+    if not dch:
+        return None, "directory chain"
+    d = b"".join(sec(x) for x in dch)
+    n = len(d) // 128
+    E = [d[128 * i:128 * i + 128] for i in range(n)]
+    if E[0][66] != 5:
+        return None, "no root entry"
+    rstart, rsize = struct.unpack("<I", E[0][116:120])[0], struct.unpack("<Q", E[0][120:128])[0]
+    mini, minifat = b"", []
+    if nmf or rsize:
+        mch = chain(mfstart, fat, nsec) if nmf else []
+        cch = chain(rstart, fat, nsec) if rsize else []
+        if mch is None or cch is None or len(mch) != nmf or len(cch) * ss < rsize:
+            return None, "mini FAT / mini stream container chains"
+        for x in mch:
+            minifat += struct.unpack("<%dI" % spb, sec(x))
+        mini = b"".join(sec(x) for x in cch)
+    streams, seen = {}, set()
+
+    def walk(i, prefix):
+        stack = [i]
+        while stack:
+            i = stack.pop()
+            if i == 0xFFFFFFFF:
+                continue
+            if i >= n or i in seen:
+                return "directory tree leaves the table or loops at entry %d" % i
+            seen.add(i)
+            e = E[i]
+            nl = struct.unpack("<H", e[64:66])[0]
+            name = e[:max(0, nl - 2)].decode("utf-16-le", "replace")
+            left, right, child = struct.unpack("<III", e[68:80])
+            stack += [left, right]
+            start, size = struct.unpack("<I", e[116:120])[0], struct.unpack("<Q", e[120:128])[0]
+            if e[66] == 1:
+                w = walk(child, prefix + name + "/")
+                if w:
+                    return w
+            elif e[66] == 2:
+                if size < cutoff:
+                    c = chain(start, minifat, len(mini) // mss) if size else []
+                    if c is None or len(c) * mss < size:
+                        return "mini chain of %r" % (prefix + name)
+                    data = b"".join(mini[x * mss:(x + 1) * mss] for x in c)[:size]
+                else:
+                    c = chain(start, fat, nsec)
+                    if c is None or len(c) * ss < size:
+                        return "chain of %r (FAT entry out of bounds, loop, or %s sectors for %d bytes)" % (prefix + name, "too few" if c else "no", size)
+                    data = b"".join(sec(x) for x in c)[:size]
+                streams[prefix + name.upper() if not prefix else prefix + name] = data
+            else:
+                return "entry %d of type %d in the tree" % (i, e[66])
+        return None
+    w = walk(struct.unpack("<I", E[0][76:80])[0], "")
+    if w:
+        return None, w
+    return streams, ""
+
+
+def pred_wb_files(f, outs, status="ok"):
+    """C18 on the files lib/comdoc wrote, judged by the independent reader: after every session the header counts, DIFAT, FAT and
+    the file agree, and every stream the history did not name holds the bytes it held in the input"""
+    inp = bytes.fromhex(f[3]) if f[3] != "-" else b""
+    v0, _ = cfb_view(inp)
+    if v0 is None:
+        return None
+    # names the history touches (root level; relic matches them case-insensitively)
+    touched, i = set(), 5
+    rest = f[4:]
+    for j, t in enumerate(rest):
+        if t in ("a", "d") and j + 1 < len(rest):
+            try:
+                touched.add(bytes.fromhex(rest[j + 1]).decode("utf-16-le", "replace").upper() if rest[j + 1] != "-" else "")
+            except ValueError:
+                pass
+    if status.startswith("panic"):
+        # Close / AddFile write in place: a panic half way leaves the file partly rewritten
+        return ("streams_preserved / tables_roundtrip (the writer must complete on a well-formed file)",
+                "ok or a returned error", "the writer panicked on a compound file the independent reader accepts: " + status[:120])
+    for n, oh in enumerate(outs):
+        v, why = cfb_view(bytes.fromhex(oh))
+        if v is None:
+            return ("difat_parses_back / fat_parses_back / tables_roundtrip", "header counts, DIFAT, FAT and directory agree with the file "
+                    "after session %d (independent reader)" % n, why)
+        for name, data in v0.items():
+            if name in touched:
+                continue
+            if name not in v:
+                return ("streams_preserved", "stream %r still present after session %d" % (name, n), "missing")
+            if v[name] != data:
+                k = next((x for x in range(min(len(data), len(v[name]))) if data[x] != v[name][x]), min(len(data), len(v[name])))
+                return ("streams_preserved", "stream %r identical after session %d (%d bytes)" % (name, n, len(data)),
+                        "%d bytes, first difference at offset %d" % (len(v[name]), k))
+    return None
+
+
 def judge_wb(op, il, mres, tag, stats):
     """byte-level tie: the model's predicted file bytes after every session = the bytes lib/comdoc left in the file;
     bridge: every input that Spec.Cfb.validate accepts opens into a state satisfying invB (hypothesis of the theorems),
@@ -374,6 +535,18 @@ def judge_wb(op, il, mres, tag, stats):
                         "rejected (the predicted bytes are the bytes lib/comdoc wrote when the tie holds)",
                         "a session on a valid compound file left an invalid one"))
     tagname = f[2].split("/")[0]
+    # the property on what the implementation wrote, whatever the model says
+    if il.startswith(("ok", "err", "panic")):
+        try:
+            bad = pred_wb_files(f, il.split(" ")[1:], il.split(" ")[0])
+        except (ValueError, IndexError, KeyError, _struct.error):   # bytes the reader cannot even slice: no verdict
+            bad = None
+        if bad:
+            stats["wb-independent-reader:violation"] += 1
+            pre.append(("counterexample", "Relic.Props.C18." + bad[0], bad[1], bad[2][:300],
+                        "evaluated on the file lib/comdoc wrote, by an independent reader"))
+        else:
+            stats["wb-independent-reader:ok-or-skipped"] += 1
     if not mres.startswith("ok "):
         return [("broken-tie", "Relic.CfbB.session", "an answer", mres[:200], "driver failed on this op")], False
     m = mres.split(" ")[1:]
